@@ -28,7 +28,8 @@ class C17(Check):
     trusted = ["Go harness: base offset arithmetic", "TLC, CommunityModules Json"]
     rule = ("NewMap: all lists of <= 3 non-empty intervals over 0..U (unsorted, overlapping, adjacent, nested, duplicated); "
             "MapUnion/MapComplement/MapIntersect: all pairs of subsets of 0..U-1 given as their interval lists; at element "
-            "types uint64 (bases 0, 2^32-3, 2^63-4, 2^64-64) and int64 (bases -5, 0); expected = normal form of the set; "
+            "types uint64 (bases 0, 2^32-3, 2^63-4, 2^64-64) and int64 (bases -5, 0); long maps of 17-40 intervals against "
+            "short straddling ones and against each other; expected = normal form of the set; "
             "non-trivial = at least one non-empty operand; distinct by (op, operands, type, base)")
     assumptions = ["intervals do not wrap the integer type"]
 
@@ -69,6 +70,23 @@ class C17(Check):
                 for op in ("union", "complement", "intersect"):
                     t, bs = tb()
                     gs.append([{"case": "s%d" % k, "op": op, "t": t, "base": bs, "a": a, "b": b}])
+                    k += 1
+        # long maps (17-40 intervals: beyond any small-size fast path) against short ones straddling their intervals'
+        # boundaries, and against each other, in both argument orders
+        def longmap(n, step, off, ln):
+            return [[step * i + off, step * i + off + ln] for i in range(n)]
+        for j in range(40 if tier == "quick" else 600):
+            n = rng.choice([17, 18, 20, 33, 40])
+            step = rng.choice([4, 6, 10])
+            big = longmap(n, step, rng.randrange(0, 3), rng.randrange(1, step - 1))
+            lo = rng.randrange(0, step * n - 2)
+            short = normal(set(range(lo, min(step * n + 3, lo + rng.choice([1, 2, step - 1, step, step + 3, 3 * step])))) |
+                           set(rng.sample(range(step * n + 3), rng.choice([0, 1, 3]))))
+            other = longmap(rng.choice([17, 25]), rng.choice([5, 7]), rng.randrange(0, 4), rng.randrange(1, 4))
+            for a, b in ((big, short), (short, big), (big, other), (other, big), (big, big)):
+                for op in ("union", "complement", "intersect"):
+                    t, bs = rng.choice([("u64", 0), ("u64", 1), ("u64", 2), ("i64", -5), ("i64", 0)])   # room for 400 integers
+                    gs.append([{"case": "L%d" % k, "op": op, "t": t, "base": bs, "a": a, "b": b}])
                     k += 1
         # sessions: the Map values stay alive; every operation appends its result and all maps of the session are
         # re-read after it - an operation changes neither its arguments nor any earlier result (a later operation on a
